@@ -334,7 +334,7 @@ pub fn run(ctx: &mut LaneCtx) {
     ctx.run_sub(
         SubSpec {
             name: "dump-level",
-            cases: (480, 10_000),
+            cases: (720, 10_000),
             rule: "whole dumps of generated targets (C01 scenarios) into a destination pre-filled with random bytes and positioned at 0/1/mid/len/beyond and optionally accepting only a bounded number of bytes per write call, fault free or with an I/O error injected at a generated destination call; oracle = on success destination[p0..p0+len) equals the returned image, nothing before p0 or beyond the image changes, final position p0+len; on abort nothing before p0 changes and what was written is a consistent truncated image; non-trivial = p0 > 0; distinct = hash of case",
             strategy: (crate::props::c01::case_strategy(6), proptest::collection::vec(any::<u8>(), 0..5000), prop_oneof![Just(P0::Zero), Just(P0::One), Just(P0::Mid), Just(P0::Len), (0u8..40).prop_map(P0::Beyond)], proptest::option::weighted(0.4, any::<u8>()), any::<bool>(), proptest::option::weighted(0.35, prop_oneof![1u16..64, 64u16..5000]))
                 .prop_map(|(scenario, prefill, p0, fail_at, empty_env, chunk)| DumpCase { scenario, prefill, p0, fail_at, empty_env, chunk })
